@@ -104,6 +104,9 @@ void vf_va_start(void *ap, u64 *va) { struct vf_va_list *l = ap; l->gp_offset = 
 void *vf_memcpy(void *d, const void *s, u64 n) { if (n) memcpy(d, s, n); return d; }
 void *vf_memmove(void *d, const void *s, u64 n) { if (n) memmove(d, s, n); return d; }
 void *vf_memset(void *d, int c, u64 n) { if (n) memset(d, c, n); return d; }
+u8 *vf_libc_memcpy(u8 *d, const u8 *s, u64 n) { if (n) memcpy(d, s, n); return d; }
+u8 *vf_libc_memmove(u8 *d, const u8 *s, u64 n) { if (n) memmove(d, s, n); return d; }
+u8 *vf_libc_memset(u8 *d, u32 c, u64 n) { if (n) memset(d, (int)c, n); return d; }
 void vf_unreachable(void) { VF_FAIL("llvm unreachable executed (undefined behaviour in source)"); }
 void vf_trap(void) { VF_FAIL("llvm.trap"); }
 #define CLZ(N) u64 vf_ctlz##N(u64 x) { u64 n = 0; int i; for (i = N - 1; i >= 0; --i) { if ((x >> i) & 1) break; n++; } return n; } \
